@@ -87,6 +87,8 @@ def hot_urls(comp, s):
 
 QUERY_EXTRA = ["%62=1&a=2", "b=1&%61=2", "utm%5Fsource=x&a=1", "utm_source=x&a=1", "a=1&a=%31", "A=1&a=1", "x=%20&x= ", "b&a", "b=&a=", "%3D=1&==2",
                "a=1&amp;b=2", "a=1&amp%3Bb=2", "hl=fr&gl=us&a=1", "HL=fr",
+               # empty items (doubled, leading, trailing '&')
+               "a=1&&b=2", "a=1&", "&a=1", "&", "b=2&&a=1&",
                # values that only differ by case / escaping of a filtered combination
                "ref=%46b&a=1", "ref=Fb&a=1", "ref=fb&a=1", "REF=FB&a=1", "outputType=AMP&a=1", "outputtype=%61mp&a=1", "spref=TW", "m=1&M=0"]
 # redirection hints (escaped targets, in the query and - where they mean nothing - in the fragment), control characters next to whitespace
